@@ -756,14 +756,22 @@ func (vc *VC) oblQuery(o *Obl) string {
 			collect(goal)
 		} else {
 			// int mode: only the index terms at which the goal reads arrays (E-matching does the rest)
+			relax := false // while walking definitions of constants the goal mentions, indexes need not mention a skolem
 			var idx func(t *Term)
 			idx = func(t *Term) {
 				if t.Op == "forall" || t.Op == "exists" {
 					return
 				}
-				if t.Op == "select" && len(t.Args) == 2 && t.Args[1].S.K == KInt && (mentions(t.Args[1]) || len(isSk) == 0) {
-					cands := []*Term{t.Args[1]}
-					for c := t.Args[1]; c.Op == "+" && len(c.Args) == 2; c = c.Args[1] {
+				if t.Op == "select" && len(t.Args) == 2 && t.Args[1].S.K == KInt && (mentions(t.Args[1]) || len(isSk) == 0 || relax) {
+					ixT := t.Args[1]
+					cands := []*Term{ixT}
+					if len(ixT.Args) == 0 {
+						// a named index (ix = off + i): decompose its definition
+						if d, ok := vc.defMap(o.NFacts)[ixT.Op]; ok {
+							ixT = d
+						}
+					}
+					for c := ixT; c.Op == "+" && len(c.Args) == 2; c = c.Args[1] {
 						cands = append(cands, c.Args[1])
 					}
 					for _, c := range cands {
@@ -779,6 +787,36 @@ func (vc *VC) oblQuery(o *Obl) string {
 				}
 			}
 			idx(goal)
+			// the goal may mention values only through named constants (t28 = patterns[i]): also look at the index terms in
+			// the definitions of the constants it mentions (two levels)
+			defs := vc.defMap(o.NFacts)
+			seenC := map[string]bool{}
+			var frontier []*Term
+			var atoms func(t *Term)
+			atoms = func(t *Term) {
+				if len(t.Args) == 0 {
+					if d, ok := defs[t.Op]; ok && !seenC[t.Op] {
+						seenC[t.Op] = true
+						frontier = append(frontier, d)
+					}
+					return
+				}
+				for _, a := range t.Args {
+					atoms(a)
+				}
+			}
+			atoms(goal)
+			relax = true
+			for level := 0; level < 2 && len(frontier) > 0; level++ {
+				cur := frontier
+				frontier = nil
+				for _, d := range cur {
+					if len(d.String()) < 2000 {
+						idx(d)
+						atoms(d)
+					}
+				}
+			}
 		}
 		sks = append(sks, extra...)
 		n := 0
@@ -797,6 +835,23 @@ func (vc *VC) oblQuery(o *Obl) string {
 	}
 	fmt.Fprintf(&sb, "(assert (not %s))\n", goal.String())
 	return sb.String()
+}
+
+// defMap: named constants with a defining fact (= c term) among the first n facts.
+func (vc *VC) defMap(n int) map[string]*Term {
+	if vc.defCache != nil && vc.defCacheN == n {
+		return vc.defCache
+	}
+	m := map[string]*Term{}
+	for _, f := range vc.facts[:n] {
+		if f.Op == "=" && len(f.Args) == 2 && len(f.Args[0].Args) == 0 && len(f.Args[1].Args) > 0 {
+			if _, isLit := intLitVal(f.Args[0]); !isLit {
+				m[f.Args[0].Op] = f.Args[1]
+			}
+		}
+	}
+	vc.defCache, vc.defCacheN = m, n
+	return m
 }
 
 // baseVarName strips the uniquifying suffixes of bound-variable / skolem names: "x2!q3!17" -> "x2".
